@@ -275,7 +275,10 @@ def wz_outcome(adapter, path, method):
 
     try:
         rule, args = adapter.match(path, method=method, return_rule=True) if path is not None else adapter.match(return_rule=True)
-        return ("match", rule.endpoint, tuple(sorted(args.items(), key=lambda kv: kv[0]))), None
+        out = ("match", rule.endpoint, tuple(sorted(args.items(), key=lambda kv: kv[0])))
+        # history: the mapping belongs to the caller, who writes into it (url-value hooks do); no later match may see that
+        args["written-by-an-earlier-caller"] = path
+        return out, None
     except RequestRedirect as e:
         return ("redirect", unquote(urlsplit(e.new_url).path)), None
     except MethodNotAllowed as e:
@@ -300,6 +303,15 @@ def build_adapter(rules, order, strict, merge, late=0):
             # the method set in any iterable spelling (list, tuple, set, one-shot iterators)
             ms = (list, tuple, frozenset, iter, lambda m: (x for x in m), lambda m: map(str, m))[(len(rl) + len(ms) + i) % 6](ms)
         rl.append(Rule(R.rule_str(r), endpoint=r["ep"], methods=ms, **kw))
+    if late == "copies":
+        # history: the rules have served another map before (bound, compiled, matched against) whose merge_slashes is the
+        # opposite; this map is made from their copies (what Submount / Subdomain / EndpointPrefix do with Rule.empty())
+        donor = Map(rl, strict_slashes=strict, merge_slashes=not merge)
+        try:
+            donor.bind("h.com").match("/__warm-up__", method="GET")
+        except Exception:  # noqa: BLE001
+            pass
+        return Map([r.empty() for r in rl], strict_slashes=strict, merge_slashes=merge).bind("h.com")
     if late and len(rl) >= 2:
         # history: the map is bound and used (which sorts its rules and compiles the matcher) before its last rules arrive
         m = Map(rl[:-late], strict_slashes=strict, merge_slashes=merge)
@@ -349,8 +361,12 @@ def check_map(rec, spy, rng, cfg, rules, strict, merge):
     for order in orders:
         try:
             late = rng.randint(1, n - 1) if n >= 2 and rng.random() < 0.25 else 0
+            if not late and rng.random() < 0.2 and all(r.get("merge") is None for r in rules):
+                late = "copies"  # (a copy keeps no per-rule merge_slashes, so only rules that leave it to the map)
             ad = build_adapter(rules, order, strict, merge, late)
-            if late:
+            if late == "copies":
+                rec.observe("maps_made_of_copies_of_rules_bound_elsewhere")
+            elif late:
                 rec.observe("maps_extended_after_first_use")
         except Exception as e:
             rec.observe(f"map_build_error:{type(e).__name__}")
